@@ -251,17 +251,19 @@ def run_real(c):
         fa = mk_fh(op[2] if k in ("fit", "ups") else op[1], shift) if k in ("fit", "pred", "ups") else None
         before = (_snap(ya), _snap(fa))
         held.append((ya, before[0]))
+        kw = (len(toks) + len(c["ops"])) % 2 == 1          # the same call, arguments by keyword or by position
         try:
             if k == "fit":
-                res = f.fit(ya, fh=fa)
+                res = f.fit(y=ya, X=None, fh=fa) if kw else f.fit(ya, None, fa)
             elif k == "pred":
-                res = f.predict(fa)
+                res = f.predict(fh=fa) if kw else f.predict(fa)
             elif k == "upd":
-                res = f.update(ya, update_params=op[2])
+                res = f.update(y=ya, X=None, update_params=op[2]) if kw else f.update(ya, None, op[2])
             elif k == "up":
-                res = f.update_predict(ya, cv=mk_cv(op[2]), update_params=op[3])
+                res = f.update_predict(y=ya, cv=mk_cv(op[2]), update_params=op[3]) if kw else f.update_predict(ya, mk_cv(op[2]), None, op[3])
             elif k == "ups":
-                res = f.update_predict_single(ya, fh=fa, update_params=op[3])
+                # (the tuner names this parameter `y`, the forecaster base classes `y_new`: the data go by position)
+                res = f.update_predict_single(ya, fh=fa, update_params=op[3]) if kw else f.update_predict_single(ya, fa, None, op[3])
             else:
                 raise RuntimeError(k)
             out = "ok" if res is f else show_out(res, shift, opaque)
